@@ -98,6 +98,15 @@ def run(case):
     nt_inst = sweep.node_twin(inst)
     add("int,node", {"weight_type": "int", "flow_attr_origin": "node"}, nt_inst, "node")
     add("float,node", {"weight_type": "float", "flow_attr_origin": "node"}, nt_inst, "node")
+    # a node without arcs (a source that is also a sink): its value must be explained by the single-node route, also when the caller
+    # asks get_solution() to drop empty routes
+    iso_inst, _q = sweep.with_isolated_node(nt_inst)
+    rm = "remove_empty_walks" if cyc else "remove_empty_paths"
+    kiso = {"k": k0 + 2} if is_k else {}
+    add("int,node,isolated", dict({"weight_type": "int", "flow_attr_origin": "node"}, **kiso), iso_inst, "node")
+    if is_k:  # the minimum searches' get_solution() takes no argument
+      add("int,node,isolated,remove_empty", dict({"weight_type": "int", "flow_attr_origin": "node"}, **kiso), dict(iso_inst, get_solution_kw={rm: True}), "node")
+      add("float,node,isolated,keep_empty", dict({"weight_type": "float", "flow_attr_origin": "node"}, **kiso), dict(iso_inst, get_solution_kw={rm: False}), "node")
     inner = sweep.inner_nodes(inst)
     if inner:
         nw = dict(nt_inst["node_w"])
